@@ -171,11 +171,26 @@ def origins(body, x, through_calls=True, max_nodes=6000, stop_at_call=None, prog
         for d in ds:
             kind = d[0]
             if upos is not None:
-                # reaching-definition filter: the definition must be able to flow to the use
+                # reaching-definition filter (kill-aware for whole-local definitions): the definition
+                # must be able to flow to the use without passing another whole definition of l
                 dbb = d[1]
                 didx = d[2] if d[2] is not None else len(body.blocks[dbb]["s"])
-                if not (dbb in G.reach_plus(dbb) and upos[0] in G.reach_plus(dbb) or upos[0] in G.reach_plus(dbb) or (dbb == upos[0] and didx < upos[1])):
-                    continue
+                same_block_before = (dbb == upos[0] and didx < upos[1])
+                if same_block_before:
+                    # killed by a later whole def in the same block before the use?
+                    if any(o is not d and o[1] == dbb and not _place_path(o[3]) and o[0] in ("assign", "call")
+                           and didx < (o[2] if o[2] is not None else len(body.blocks[dbb]["s"])) < upos[1] for o in ds):
+                        continue
+                else:
+                    if upos[0] not in G.reach_plus(dbb):
+                        continue
+                    killers = {o[1] for o in ds if o is not d and not _place_path(o[3]) and o[0] in ("assign", "call") and o[1] != dbb and o[1] != upos[0]}
+                    # a whole def in the use block before the use kills everything from outside
+                    if any(o is not d and o[1] == upos[0] and not _place_path(o[3]) and o[0] in ("assign", "call")
+                           and (o[2] if o[2] is not None else len(body.blocks[upos[0]]["s"])) < upos[1] for o in ds) and dbb != upos[0]:
+                        continue
+                    if killers and not G.reaches(dbb, upos[0], removed=killers):
+                        continue
                 pos[0] = (dbb, didx)
             if kind == "assign":
                 dpath = _place_path(d[3])
